@@ -166,7 +166,16 @@ func (g *gen) ensureComponent(file, kind string, depth int) string {
 		}
 		return n
 	}
-	name := fmt.Sprintf("%s%d", strings.ToUpper(kind[:1]), len(all)+1)
+	prefix := strings.ToUpper(kind[:1])
+	if g.chance(4, "sharedname") {
+		// the sections of a components object are separate name spaces: a header and a parameter may
+		// both be called N1
+		prefix = "N"
+	}
+	name := fmt.Sprintf("%s%d", prefix, len(all)+1)
+	for i := 2; m[name] != nil; i++ {
+		name = fmt.Sprintf("%s%d", prefix, len(all)+i)
+	}
 	key := file + "|" + kind + "|" + name
 	g.inProg[key] = true
 	ph := M{} // placeholder so that nested generation can refer back (cycles)
@@ -211,11 +220,33 @@ func (g *gen) ref(kind, file string, depth int, noSelf bool) M {
 	if !g.cfg.NoDeep && (kind == "schema" || kind == "header" || kind == "response") {
 		choices = append(choices, "deep")
 	}
+	if !g.cfg.NoDeep && kind == "schema" && len(g.docs) > 1 {
+		choices = append(choices, "x-area")
+	}
 	switch rapid.SampledFrom(choices).Draw(g.t, "refform") {
 	case "same-doc":
 		n := g.ensureComponent(file, kind, depth)
 		g.feat["form:same-doc"]++
 		return M{"$ref": "#/components/" + Section[kind] + "/" + n}
+	case "x-area":
+		// a schema kept in an extension area of another document (reachable only as raw data), which
+		// itself refers to a component of its own document by a local reference: component names are
+		// numbered per document, so the referring document usually has a component of the same name
+		tf := g.pickOtherDoc(file)
+		td := g.doc(tf)
+		area, _ := td["x-defs"].(M)
+		if area == nil {
+			area = M{}
+			td["x-defs"] = area
+		}
+		key := fmt.Sprintf("X%d", len(area)+1)
+		obj := M{"type": "object", "x-vid": g.newID("schema", tf)}
+		area[key] = obj
+		n := g.ensureComponent(tf, "schema", depth-1)
+		obj["properties"] = M{"p": M{"$ref": "#/components/schemas/" + n}}
+		g.feat["form:x-area"]++
+		g.feat["external"]++
+		return M{"$ref": g.relSpelling(file, tf) + "#/x-defs/" + key}
 	case "whole-file":
 		ef := g.reuseElement(kind, file)
 		if ef == "" {
